@@ -97,6 +97,20 @@ static void b64_decode_arbitrary(const std::string &s){ vf::eval(); vf::announce
 	if(ds>=0){ unsigned char *ex=new unsigned char[ds?ds:1]; const unsigned char *b=(const unsigned char*)s.data(); unsigned char *end=b64url::decode(b,b+s.size(),ex); if(end-ex!=ds) bad("b64-decode-arb-ptr","decode(ptr) wrote a number of bytes different from decoded_size",s); delete [] ex; vf::guard("b64_arbitrary_decoded"); }
 	vf::outcome("bd|"+std::string(ok?"1":"0")+out); }
 
+// an object whose operator<< writes several pieces: the template filters receive the pieces through their own stream buffer
+// (128 bytes), so the result must not depend on how the text is split into writes
+struct Pieces { std::vector<std::string> p; };
+static std::ostream &operator<<(std::ostream &o,const Pieces &x){ for(size_t i=0;i<x.p.size();i++) o.write(x.p[i].data(),x.p[i].size()); return o; }
+static void pieces_case(const std::vector<std::string> &p){ vf::eval(); Pieces x; x.p=p; std::string whole,desc; for(size_t i=0;i<p.size();i++){ whole+=p[i]; desc+=(i?"+":"")+std::to_string(p[i].size()); } vf::announce("pieces "+desc+" "+vf::hex(whole.substr(0,300)));
+	{ std::ostringstream o; o<<filters::escape(x); if(o.str()!=util::escape(whole)) bad("escape-pieces:filter","filters::escape of an object written in pieces of "+desc+" bytes differs from the escape of the whole text",whole); }
+	{ std::ostringstream o; o<<filters::urlencode(x); if(o.str()!=util::urlencode(whole)) bad("urlencode-pieces:filter","filters::urlencode of an object written in pieces of "+desc+" bytes differs from the encoding of the whole text",whole); }
+	{ std::ostringstream o; o<<filters::base64_urlencode(x); std::string want=b64url::encode(whole); if(o.str()!=want) bad("b64-pieces:filter","filters::base64_urlencode of an object written in pieces of "+desc+" bytes differs from the encoding of the whole text",whole); }
+	{ std::ostringstream o; o<<filters::raw(x); if(o.str()!=whole) bad("raw-pieces:filter","filters::raw of an object written in pieces differs from the text",whole); }
+	vf::guard("piecewise_writes"); }
+static void pieces_pass(int sh,int n){ int lens[]={0,1,2,5,63,64,126,127,128,129,130,200,255,256,257,300,1000}; int NL=sizeof(lens)/sizeof(*lens); int idx=0; auto mk=[](int len,int salt){ std::string m; for(int i=0;i<len;i++) m+="a<&\"'>%\xc3\xa9 +=/"[(i+salt)%13]; return m; };
+	for(int a=0;a<NL;a++) for(int b=0;b<NL;b++){ if((idx++%n)!=sh) continue; std::vector<std::string> p; p.push_back(mk(lens[a],1)); p.push_back(mk(lens[b],4)); pieces_case(p); for(int c=0;c<NL;c+=3){ p.resize(2); p.push_back(mk(lens[c],7)); pieces_case(p); } }
+	// many one-byte writes, and a long run of 7-byte writes crossing several buffer fills
+	if(sh==0){ std::vector<std::string> p; for(int i=0;i<300;i++) p.push_back(std::string(1,"<a&"[i%3])); pieces_case(p); p.clear(); for(int i=0;i<80;i++) p.push_back(mk(7,i)); pieces_case(p); } }
 template<class F> void all_strings(int maxlen,const std::string &alpha,int shard,int nshards,F f){ std::string cur; uint64_t idx=0;
 	std::function<void(int)> rec=[&](int d){ if((idx++%nshards)==(uint64_t)shard) f(cur); if(d==maxlen) return; for(size_t i=0;i<alpha.size();i++){ cur.push_back(alpha[i]); rec(d+1); cur.erase(cur.size()-1);} }; rec(0); }
 
@@ -107,6 +121,7 @@ static void run_shard(int sh,int n){ std::string all; for(int i=0;i<256;i++) all
 	else { std::string g; unsigned char gv[]={0,1,2,3,0x0f,0x10,0x3f,0x40,0x7f,0x80,0xbf,0xc0,0xfb,0xfc,0xfe,0xff}; g.assign((char*)gv,16); all_strings(3,g,sh,n,[&](const std::string &s){ if(s.size()==3) b64_case(s,true); }); }
 	// lengths 0..1024 (pattern) incl. the 127/128/129 filter-buffer edges; escape/url for lengths around the 128-byte filterbuf with markup at the edge
 	for(int len=0;len<=1024;len++){ if(len%n!=sh) continue; std::string s; for(int i=0;i<len;i++) s+=(char)(i*7+len); b64_case(s,len<140); if(len<=300){ std::string m; for(int i=0;i<len;i++) m+="a<&\"'>%é "[(i+len)%10]; escape_case(m); url_case(m);} vf::guard("length_sweep"); }
+	pieces_pass(sh,n);
 	// decoders on arbitrary strings
 	std::string ua; ua+="%+a4Gf"; ua+='\0'; ua+='\xff'; all_strings(vf::thorough()?6:5,ua,sh,n,[&](const std::string &s){ urldecode_case(s); });
 	for(int x=0;x<256;x++) for(int y=0;y<256;y++){ if((x*256+y)%n!=sh) continue; std::string s="%"; s+=(char)x; s+=(char)y; urldecode_case(s); urldecode_case("a"+s+"b"); }
@@ -117,10 +132,10 @@ static void replay(const std::string &file){ std::ifstream f(file); std::strings
 	escape_case(in); url_case(in); b64_case(in,true); urldecode_case(in); b64_decode_arbitrary(in); printf("replayed input %s\n",vf::hex(in).c_str()); }
 int main(int argc,char **argv){ vf::init(argc,argv,"C15","exploration");
 	if(!vf::C().replay_file.empty()){ replay(vf::C().replay_file); return vf::finish(); }
-	vf::C().rule="every byte string of length 0..2 through escape (string, streambuf, ostream, filters::escape, text and textarea widgets), urlencode (4 paths) and base64url (string, pointer with canaries and exact heap buffer, ostream, filter), base64 length 3 ("+std::string(vf::thorough()?"all 2^24":"16^3 grid")+"), lengths 0..1024, every sink capacity k in 0..len(output) for the streaming variants, urldecode on all strings over {%,+,a,4,G,f,NUL,ff} and all %XY, base64 decode on all strings over {A,_,-,=,%,+,z,NUL,ff}. distinct = distinct (codec,output); non-trivial = all of them (each is a different output text)";
+	vf::C().rule="objects written in 2 or 3 pieces with lengths from {0,1,2,5,63,64,126..130,200,255..257,300,1000}^2 (x 6 third pieces) through filters::escape/urlencode/base64_urlencode/raw against the whole-text result; every byte string of length 0..2 through escape (string, streambuf, ostream, filters::escape, text and textarea widgets), urlencode (4 paths) and base64url (string, pointer with canaries and exact heap buffer, ostream, filter), base64 length 3 ("+std::string(vf::thorough()?"all 2^24":"16^3 grid")+"), lengths 0..1024, every sink capacity k in 0..len(output) for the streaming variants, urldecode on all strings over {%,+,a,4,G,f,NUL,ff} and all %XY, base64 decode on all strings over {A,_,-,=,%,+,z,NUL,ff}. distinct = distinct (codec,output); non-trivial = all of them (each is a different output text)";
 	vf::assume("reference codecs (un-escape, strict %XX decoder, RFC 4648 base64url) are written in the harness");
 	vf::assume("pointer decode is only called when decoded_size()>=0 (its documented precondition)");
 	vf::assume("urldecode of text with a malformed % escape is unspecified (only: no crash, output not longer than input)");
 	int n=16; vf::parallel(n,n,[&](int sh){ run_shard(sh,n); },vf::thorough()?1200:200);
-	vf::require_guard("sink_failures_seen"); vf::require_guard("urldecode_wellformed"); vf::require_guard("b64_arbitrary_decoded"); vf::require_guard("length_sweep");
+	vf::require_guard("sink_failures_seen"); vf::require_guard("urldecode_wellformed"); vf::require_guard("b64_arbitrary_decoded"); vf::require_guard("length_sweep"); vf::require_guard("piecewise_writes");
 	return vf::finish(); }
